@@ -102,8 +102,18 @@ class BrokerState:
                     and not waiter.timed_out
                 ):
                     # a resolved or timed-out waiter already has its replay queued
+                    # the re-run continues the suspended invocation: keep its
+                    # retry counters and recovery counts
                     commands.append(
-                        TickAddEvent(event=waiter.event, step_name=step_name)
+                        TickAddEvent(
+                            event=waiter.event,
+                            step_name=step_name,
+                            attempts=waiter.attempts,
+                            first_attempt_at=waiter.first_attempt_at,
+                            last_exception=waiter.last_exception,
+                            last_failed_at=waiter.last_failed_at,
+                            recovery_counts=dict(waiter.recovery_counts),
+                        )
                     )
         return commands
 
@@ -148,6 +158,11 @@ class BrokerState:
                     if waiter.resolved_event
                     else None,
                     timed_out=waiter.timed_out,
+                    attempts=waiter.attempts,
+                    first_attempt_at=waiter.first_attempt_at,
+                    last_exception=waiter.last_exception,
+                    last_failed_at=waiter.last_failed_at,
+                    recovery_counts=dict(waiter.recovery_counts),
                 )
                 for waiter in worker_state.collected_waiters
             ]
@@ -239,6 +254,11 @@ class BrokerState:
                         if waiter_data.resolved_event
                         else None,
                         timed_out=waiter_data.timed_out,
+                        attempts=waiter_data.attempts,
+                        first_attempt_at=waiter_data.first_attempt_at,
+                        last_exception=waiter_data.last_exception,
+                        last_failed_at=waiter_data.last_failed_at,
+                        recovery_counts=dict(waiter_data.recovery_counts),
                     )
                 )
 
